@@ -1214,7 +1214,15 @@ fn injections(rep: &mut Rep, rng: &mut Rng, p: &EioParams, cfg: &Cfg, r: &Record
                 let b: Batch = vec![(rng.key(), Access::Write(Some(vec![1, 2, 3])))];
                 let mut sub = rep.sub();
                 let view = sut.model.kv.clone();
-                if let Some(prep) = sut.prepare(&mut sub, rng, &[], &view, b, false, 0, &ctx) {
+                let prep_opt = sut.prepare(&mut sub, rng, &[], &view, b, false, 0, &ctx);
+                if prep_opt.is_none() && std::env::var("NV_KEEP_FAILED").is_ok() {
+                    use std::io::Write;
+                    let _ = std::fs::create_dir_all("/tmp/nv-failed-images");
+                    if let Ok(mut f) = std::fs::OpenOptions::new().create(true).append(true).open("/tmp/nv-failed-images/prepare_fail.txt") {
+                        let _ = writeln!(f, "pid {} site {site_name}: prepare on the poisoned handle failed: {:?}", std::process::id(), sub.findings.iter().map(|f| format!("{}:{}", f.sig, f.detail.chars().take(200).collect::<String>())).collect::<Vec<_>>());
+                    }
+                }
+                if let Some(prep) = prep_opt {
                     if let Ok(Ok(())) = guard(|| prep.fin.commit(db)) {
                         rep.fail(
                             "C14",
